@@ -200,7 +200,7 @@ def more_requests(run, reqs, expect, descs):
         expect.append(sca); descs.append(("uniform", "uindex", tuple(zs)))
         run.count("uniform_ice")
     for rep in range(run.scale(6, 40)):
-        nl = run.rng.randint(1, 4)
+        nl = run.rng.randint(1, 5)
         bounds = sorted({round(-run.rng.uniform(10, 2000), 1) for _ in range(nl)} | {0.0}, reverse=True)
         if len(bounds) < 2:
             continue
@@ -209,6 +209,12 @@ def more_requests(run, reqs, expect, descs):
                   AntarcticIce(valid_range=(bounds[i + 1], bounds[i]), index_above=None, index_below=None)
                   for i in range(len(bounds) - 1)]
         run.rng.shuffle(layers)
+        if len(layers) >= 3 and run.rng.random() < 0.25:
+            # a DISCONNECTED stack: depths inside the gap have no layer (layer_at_depth and index must raise ValueError,
+            # the model answers none: C16_layers_no_layer)
+            gone = sorted(layers, key=lambda l: -l.valid_range[0])[run.rng.randrange(1, len(layers) - 1)]
+            layers = [l for l in layers if l is not gone]
+            run.count("layer_stacks_with_gap")
         li = LayeredIce(layers)
         stack = [(l.valid_range[0], l.valid_range[1]) for l in li.layers]
         zs = list(bounds) + [b + 1e-9 for b in bounds] + [run.rng.uniform(bounds[-1] - 5, 5) for _ in range(6)]
@@ -222,6 +228,15 @@ def more_requests(run, reqs, expect, descs):
                     ok = False; run.note_broken("correspondence: LayeredIce.index(%r) != layer.index" % z)
             except ValueError:
                 imp.append("none")
+                inside = any(l.valid_range[0] < z <= l.valid_range[1] for l in li.layers)
+                above_or_below = z > li.layers[0].valid_range[1] or z <= li.layers[-1].valid_range[0]
+                if not inside and not above_or_below:
+                    # a gap: index() must refuse as well rather than invent a value
+                    try:
+                        li.index(z)
+                        ok = False; run.note_broken("correspondence: LayeredIce.index(%r) answers inside a gap" % z)
+                    except ValueError:
+                        run.count("gap_depth_rejected")
         reqs.append("layer %d %s %s" % (len(stack), fw.fl([v for p in stack for v in p]), fw.fl(zs)))
         expect.append(imp); descs.append(("layered", "layer", tuple(v for p in stack for v in p)))
         run.count("layer_stacks")
